@@ -117,12 +117,17 @@ def run_rx(lines, check_model=True):
     rxlines = []
     for line, out in zip(lines, impl):
         parts = out.split("|")
+        if len(parts) == 4:
+            flush_items = parts[3]
+            parts = parts[:3]
+        else:
+            flush_items = "-"
         if len(parts) != 3:
             res.append({"line": line, "error": out, "rxline": None, "impl": "", "model": None, "extras": {}})
             rxlines.append("utf8 -")
             continue
         extras = dict(kv.split("=", 1) for kv in parts[2].split(" ") if "=" in kv)
-        res.append({"line": line, "rxline": parts[0], "impl": parts[1], "model": None, "extras": extras})
+        res.append({"line": line, "rxline": parts[0], "impl": parts[1], "model": None, "extras": extras, "flush_items": flush_items})
         rxlines.append(parts[0])
     if check_model:
         model = vlib.run_lines_parallel(vlib.MODELRUN, rxlines)
